@@ -4,9 +4,9 @@ package c15
 // after every operation until the group's ticker has nothing left to do, so a
 // rotation never competes with a write for the group mutex.  Here one writer
 // issues Write / WriteSync / end-height markers back to back, with no
-// settling, against a 1 ms ticker and a small head-size limit, and in half of
-// the runs a second goroutine calls Group().RotateFile() whenever something
-// is buffered (a rotation at any moment between two Group.Write calls is a
+// settling, against a 1 ms ticker and a small head-size limit, and in the
+// other half of the runs (ticker off) a second goroutine calls
+// Group().RotateFile() whenever something is buffered (a rotation at any moment between two Group.Write calls is a
 // schedule the ticker itself can produce for a suitable limit).  Then the WAL
 // is flushed, synced and stopped cleanly - every record is acknowledged, there
 // is no crash - and the verdict is taken from the files and from fresh readers:
@@ -88,6 +88,18 @@ func runRaceCase(c *verdict.Ctx, idx int, base string) {
 	if r.Intn(3) == 0 {
 		cfg.TotalLimit = cfg.HeadLimit * int64(3+r.Intn(6))
 	}
+	// The RotateFile goroutine never runs together with the group's ticker: the
+	// ticker's checkHeadSizeLimit calls Head.Size(), which reopens the head
+	// without the group mutex; interleaved with a RotateFile of ANOTHER
+	// goroutine that leaves the AutoFile holding the renamed file (later
+	// writes go to the rotated file, the next RotateFile panics in Rename).
+	// In the node only the ticker goroutine rotates, so that schedule is not
+	// the node's; with the rotator the ticker is off (and with it the pruning).
+	period := tick
+	if cfg.Rotator {
+		period = time.Hour
+		cfg.TotalLimit = 0
+	}
 	dir, err := os.MkdirTemp(base, fmt.Sprintf("r%d-", idx))
 	if err != nil {
 		c.HarnessError("mkdir: %v", err)
@@ -96,7 +108,7 @@ func runRaceCase(c *verdict.Ctx, idx int, base string) {
 	defer os.RemoveAll(dir)
 	hp := headPath(dir)
 	wal, err := consensus.NewWAL(hp, autofile.GroupHeadSizeLimit(cfg.HeadLimit),
-		autofile.GroupTotalSizeLimit(cfg.TotalLimit), autofile.GroupCheckDuration(tick))
+		autofile.GroupTotalSizeLimit(cfg.TotalLimit), autofile.GroupCheckDuration(period))
 	if err != nil {
 		c.HarnessError("race %d: NewWAL: %v", idx, err)
 		return
@@ -205,7 +217,9 @@ func runRaceCase(c *verdict.Ctx, idx int, base string) {
 		headIdx = files[len(files)-1].Index + 1
 	}
 	files = append(files, raceFile{Name: headName, Index: headIdx})
-	perFile := make([][]canon, len(files))
+	// whole-frame check per file (diagnostic) and the parse of the files taken together
+	var concat []byte
+	fileStart := make([]int64, len(files)+1)
 	split := -1
 	for i := range files {
 		b, err := os.ReadFile(filepath.Join(dir, files[i].Name))
@@ -215,46 +229,58 @@ func runRaceCase(c *verdict.Ctx, idx int, base string) {
 		}
 		p, recs, _ := cleanPrefix(b)
 		files[i].Size, files[i].Clean, files[i].Recs = int64(len(b)), p, len(recs)
-		perFile[i] = recs
 		if p != int64(len(b)) && split < 0 {
 			split = i
 		}
+		fileStart[i] = int64(len(concat))
+		concat = append(concat, b...)
 	}
+	fileStart[len(files)] = int64(len(concat))
 	c.Count("race_files_checked", int64(len(files)))
 	c.Count("race_rotations", int64(headIdx))
-	pruned := files[0].Index > 0
-	if pruned {
+	pruned := cfg.TotalLimit > 0 // whole oldest files may be gone (all numbered ones too)
+	if files[0].Index > 0 {
 		c.Count("race_runs_with_pruning", 1)
 	}
-	wit := func(detail interface{}) raceWitness {
-		return raceWitness{Stream: "rotation-race", Index: idx, Cfg: cfg, Files: files, Detail: detail,
-			Note: "the interleaving of the writer with the ticker / rotator is not replayable; re-running the index repeats the operations"}
-	}
+	note := "the interleaving of the writer with the ticker / rotator is not replayable; re-running the index repeats the operations"
 	if split >= 0 {
-		f := files[split]
 		c.Count("race_files_not_whole_frames", 1)
-		c.Violation("rotation-splits-record-across-files",
-			fmt.Sprintf("after a clean stop (every record flushed and synced, no crash) file %s has %d bytes of which only the first %d are whole frames: a rotation fell inside a record", f.Name, f.Size, f.Clean), wit(nil))
-		// the reader checks below would only repeat the same finding under other keys
-		return
+		f := files[split]
+		note = fmt.Sprintf("file %s has %d bytes of which only the first %d are whole frames: a rotation fell inside a record; ", f.Name, f.Size, f.Clean) + note
 	}
-	var all []canon
+	wit := func(detail interface{}) raceWitness {
+		return raceWitness{Stream: "rotation-race", Index: idx, Cfg: cfg, Files: files, Detail: detail, Note: note}
+	}
+	cp, all, offs := cleanPrefix(concat)
+	exact := cp == int64(len(concat))
 	starts := make([]int, len(files)+1)
-	for i := range perFile {
-		starts[i] = len(all)
-		all = append(all, perFile[i]...)
-	}
-	starts[len(files)] = len(all)
-	off := len(journal) - len(all)
-	bad := off < 0 || (off > 0 && !pruned)
-	for i := 0; !bad && i < len(all); i++ {
-		bad = !journal[off+i].is(all[i])
-	}
-	if bad {
+	if exact {
+		// starts[i] = first record that begins in file i or later
+		k := 0
+		for i := range files {
+			for k < len(all) && offs[k] < fileStart[i] {
+				k++
+			}
+			starts[i] = k
+		}
+		starts[len(files)] = len(all)
+		off := len(journal) - len(all)
+		bad := off < 0 || (off > 0 && !pruned)
+		for i := 0; !bad && i < len(all); i++ {
+			bad = !journal[off+i].is(all[i])
+		}
+		if bad {
+			c.Violation("rotation-race-files-are-not-a-suffix-of-the-journal",
+				fmt.Sprintf("%d records were written and acknowledged; the surviving files hold %d records which are not the last %d of them in order (pruning possible=%v)", len(journal), len(all), len(all), pruned), wit(nil))
+			return
+		}
+	} else if !pruned {
 		c.Violation("rotation-race-files-are-not-a-suffix-of-the-journal",
-			fmt.Sprintf("%d records were written and acknowledged; the surviving files hold %d records which are not the last %d of them in order (pruned=%v)", len(journal), len(all), len(all), pruned), wit(nil))
+			fmt.Sprintf("after a clean stop the files taken together are %d bytes of which only the first %d are whole frames, although nothing was pruned", len(concat), cp), wit(nil))
 		return
 	}
+	// !exact && pruned: the oldest surviving file begins inside a record; the
+	// reader from the oldest index below decides (it must not hit corruption)
 
 	// ---- fresh readers on the directory (no Start: no ticker, no new marker)
 	rw, err := consensus.NewWAL(hp, autofile.GroupHeadSizeLimit(0), autofile.GroupTotalSizeLimit(0))
@@ -294,22 +320,37 @@ func runRaceCase(c *verdict.Ctx, idx int, base string) {
 			got = append(got, cn)
 		}
 		gr.Close()
-		want := all[starts[fi]:]
-		ok := rerr == nil && len(got) == len(want)
-		for i := 0; ok && i < len(got); i++ {
-			ok = got[i].End == want[i].End && got[i].H == want[i].H && got[i].R == want[i].R && got[i].Step == want[i].Step
+		ok := rerr == nil
+		nwant := -1
+		if exact {
+			nwant = len(all) - starts[fi]
+		}
+		if ok && exact {
+			want := all[starts[fi]:]
+			ok = len(got) == len(want)
+			for i := 0; ok && i < len(got); i++ {
+				ok = got[i].End == want[i].End && got[i].H == want[i].H && got[i].R == want[i].R && got[i].Step == want[i].Step
+			}
 		}
 		c.Count("race_readers_opened", 1)
 		if !ok {
+			if cfg.Rotator {
+				c.Count("race_reader_failures_in_runs_with_RotateFile_goroutine", 1)
+			} else {
+				c.Count("race_reader_failures_in_runs_with_ticker_only", 1)
+			}
 			key := "reader-opened-at-file-index-misses-synced-records"
 			if fi == 0 && pruned {
 				key = "reader-from-oldest-file-after-pruning-misses-synced-records"
 			}
-			c.Violation(key, fmt.Sprintf("a reader opened at file index %d (%s) returned %d records and ended with %v; the files from there on hold %d acknowledged records", f.Index, f.Name, len(got), rerr, len(want)), wit(nil))
+			c.Violation(key, fmt.Sprintf("a reader opened at file index %d (%s) returned %d records and ended with %v; every record was flushed, synced and acknowledged before a clean stop, the records that begin in the files from there on number %d (-1: not computable, the oldest file begins inside a record)", f.Index, f.Name, len(got), rerr, nwant), wit(nil))
 			return
 		}
 	}
 	// ---- searches
+	if !exact {
+		return
+	}
 	onDisk := map[int64]bool{}
 	for _, cn := range all {
 		if cn.End {
